@@ -28,20 +28,20 @@ theorem and3_eq (x : Nat) : x &&& 3 = x % 4 := Nat.and_two_pow_sub_one_eq_mod x 
 theorem shr2_eq (x : Nat) : x >>> 2 = x / 4 := Nat.shiftRight_eq_div_pow x 2
 
 /-! evaluating a quirk set at one quirk -/
-theorem qite_apply (c : Prop) [Decidable c] (a b : QSet) (q : Quirk) : (if c then a else b) q = if c then a q else b q := by
+theorem qite_apply_at (c : Prop) [Decidable c] (a b : QSet) (q : Quirk) : (if c then a else b) q = if c then a q else b q := by
   split <;> rfl
-theorem qunion_apply (a b : QSet) (q : Quirk) : (a.union b) q = (a q || b q) := rfl
-theorem qempty_apply (q : Quirk) : QSet.empty q = false := rfl
-theorem qofList1_apply (x q : Quirk) : QSet.ofList [x] q = (q == x) := by
+theorem qunion_apply_at (a b : QSet) (q : Quirk) : (a.union b) q = (a q || b q) := rfl
+theorem qempty_apply_at (q : Quirk) : QSet.empty q = false := rfl
+theorem qofList1_apply_at (x q : Quirk) : QSet.ofList [x] q = (q == x) := by
   simp [QSet.ofList]
   cases q <;> cases x <;> decide
-theorem qIf_apply (c : Bool) (x q : Quirk) : qIf c x q = (c && q == x) := by
-  cases c <;> simp [qIf, qofList1_apply, QSet.empty]
+theorem qIf_apply_at (c : Bool) (x q : Quirk) : qIf c x q = (c && q == x) := by
+  cases c <;> simp [qIf, qofList1_apply_at, QSet.empty]
 
 /-- two quirk sets built from guarded unions are equal: evaluate both at each of the 17 quirks, Boolean reasoning -/
 macro "qset_pointwise" : tactic => `(tactic|
   (funext q
-   cases q <;> simp only [qite_apply, qunion_apply, qempty_apply, qIf_apply, qofList1_apply] <;> simp <;> grind))
+   cases q <;> simp only [qite_apply_at, qunion_apply_at, qempty_apply_at, qIf_apply_at, qofList1_apply_at] <;> simp <;> grind))
 
 theorem gen_fromIpv4 (ip : Ip4F) : Gen.fromIpv4 ip = ipv4Fields ip := by
   first
